@@ -1185,6 +1185,81 @@ fn comment_migrated_behind_closer(input: &[Tk], out1: &[Tk]) -> bool {
     a.len() == b.len() && a.iter().zip(&b).any(|(x, y)| !*x && *y)
 }
 
+/// bracket context of every comment token (token order): the stack of enclosing openers
+#[derive(Clone, Copy, PartialEq, Eq, Debug)]
+enum Br {
+    Round,
+    Square,
+    Index,  // `[` directly behind an id / closer / string end: an index operation
+    Curly,
+    Str,    // between StringStart and StringEnd
+    Interp, // `{…}` inside a string
+}
+
+fn comment_contexts(toks: &[Tk]) -> Vec<(usize, Vec<Br>)> {
+    let mut out = vec![];
+    let mut st: Vec<Br> = vec![];
+    for (i, t) in toks.iter().enumerate() {
+        match t.token {
+            Token::RoundOpen => st.push(Br::Round),
+            Token::SquareOpen => {
+                let idx = i > 0 && matches!(toks[i - 1].token, Token::Id | Token::RoundClose | Token::SquareClose | Token::CurlyClose | Token::StringEnd | Token::Self_);
+                st.push(if idx { Br::Index } else { Br::Square });
+            }
+            Token::CurlyOpen => st.push(if st.last() == Some(&Br::Str) { Br::Interp } else { Br::Curly }),
+            Token::StringStart(_) => st.push(Br::Str),
+            Token::RoundClose | Token::SquareClose | Token::CurlyClose | Token::StringEnd => {
+                st.pop();
+            }
+            Token::CommentSingle | Token::CommentMulti => out.push((i, st.clone())),
+            _ => {}
+        }
+    }
+    out
+}
+
+/// F-C11-10, what 3ee7e6a did not cure. The comment no longer swallows what follows it, but the line break that is
+/// now forced behind it falls where koto's grammar cannot continue on the next line. Observed on the FIRST-PASS
+/// OUTPUT, which does not parse (`err_line` = line of the parser's error), for a line comment that stood inside a
+/// bracket group in the INPUT (same comment, by position in the comment sequence); the parser's error lies on the
+/// comment's line or on the line of the next code token behind it, and
+///   (i)  in the output the comment stands inside an index `x[…]` or inside a string interpolation `'{…}'`, or
+///   (ii) the next code token behind it stands on a later line and is `then`, `else`, a `,` outside all brackets
+///        (argument list of a call without parentheses), or a `[` that continues a value (index).
+fn forced_break_before_non_continuable(input: &[Tk], out1: &[Tk], err_line: u32) -> bool {
+    let (a, b) = (comment_contexts(input), comment_contexts(out1));
+    if a.len() != b.len() {
+        return false;
+    }
+    for ((ia, sa), (ib, sb)) in a.iter().zip(&b) {
+        if input[*ia].token != Token::CommentSingle || !sa.iter().any(|x| *x != Br::Str) {
+            continue;
+        }
+        let c = &out1[*ib];
+        let prev_code = out1[..*ib].iter().rev().find(|t| t.token != Token::Whitespace);
+        let next = out1[*ib + 1..].iter().find(|t| !matches!(t.token, Token::Whitespace | Token::NewLine));
+        if !(err_line == c.line || next.is_some_and(|n| n.line == err_line)) {
+            continue;
+        }
+        if sb.iter().any(|x| matches!(x, Br::Index | Br::Interp)) {
+            return true;
+        }
+        if let Some(n) = next {
+            let brackets = sb.iter().any(|x| *x != Br::Str);
+            let hit = match n.token {
+                Token::Then | Token::Else => true,
+                Token::Comma => !brackets,
+                Token::SquareOpen => prev_code.is_some_and(|p| matches!(p.token, Token::RoundClose | Token::SquareClose | Token::CurlyClose | Token::Id | Token::StringEnd)),
+                _ => false,
+            };
+            if n.line > c.line && hit {
+                return true;
+            }
+        }
+    }
+    false
+}
+
 /// number of comment tokens that are the first token on their line
 fn own_line_comments(toks: &[Tk]) -> usize {
     let mut n = 0;
@@ -1328,18 +1403,38 @@ fn static_shapes(src: &str, ast: &Ast, toks: &[Tk]) -> Vec<&'static str> {
             }
         }
     }
-    // F-C11-10 (what is left after /repo 3ee7e6a): a single-line comment inside a string interpolation `{…}`.
-    // (The former shapes `comment_before_closer` — next code token a closing bracket / closing `|` — and
-    // `comment_in_import_list` were removed with 3ee7e6a: a line comment now forces a line break behind it in every
-    // builder group, so clauses 2, 3, 4 and 6 are enforced for those programs; see CURED_BY_3EE7E6A.)
+    // (F-C11-10's former static shapes `comment_before_closer` — next code token a closing bracket / closing `|` — and
+    // `comment_in_import_list` were removed with /repo 3ee7e6a: a line comment now forces a line break behind it in
+    // every builder group, so clauses 2, 3, 4 and 6 are enforced for those programs; see CURED_BY_3EE7E6A. What is
+    // left of F-C11-10 is decided per option on the first-pass output: `forced_break_before_non_continuable`,
+    // `comment_migrated_behind_closer`.)
+    // F-C11-19: a line comment INSIDE the header expression of a block-form if / else if / while / until / for (code
+    // of the header follows the comment): the header is forced onto several lines, whose continuation lines get the
+    // indentation of the body
     {
-        let mut depth = 0usize;
-        for t in toks {
-            match t.token {
-                Token::StringStart(_) => depth += 1,
-                Token::StringEnd => depth = depth.saturating_sub(1),
-                Token::CommentSingle if depth > 0 => v.push("comment_in_interpolation"),
+        let mut regions: Vec<((u32, u32), (u32, u32))> = vec![];
+        let start = |i: AstIndex| { let sp = ast.span(ast.node(i).span); (sp.start.line, sp.start.column) };
+        for n in ast.nodes() {
+            match &n.node {
+                Node::If(x) if !x.inline => {
+                    regions.push((start(x.condition), start(x.then_node)));
+                    for (c, b) in x.else_if_blocks.iter() {
+                        regions.push((start(*c), start(*b)));
+                    }
+                }
+                Node::While { condition, body } | Node::Until { condition, body } => regions.push((start(*condition), start(*body))),
+                Node::For(x) => regions.push((start(x.iterable), start(x.body))),
                 _ => {}
+            }
+        }
+        for (i, t) in toks.iter().enumerate() {
+            if t.token != Token::CommentSingle {
+                continue;
+            }
+            let next = toks[i + 1..].iter().find(|n| !matches!(n.token, Token::Whitespace | Token::NewLine | Token::CommentSingle | Token::CommentMulti));
+            let Some(next) = next else { continue };
+            if regions.iter().any(|(a, b)| (t.line, t.col) > *a && (next.line, next.col) < *b) {
+                v.push("comment_in_block_header");
             }
         }
     }
@@ -1489,6 +1584,19 @@ fn worker_handle(line: &str) -> String {
                 if let Some(t1) = lex_all(&out1) {
                     if comment_migrated_behind_closer(&toks, &t1) {
                         oshapes.push("comment_migrated_behind_closer");
+                    }
+                }
+            }
+        }
+        // F-C11-10, residual clause-2 symptom: the forced break behind the comment falls where the grammar has no continuation
+        let err_line = fails.iter().find(|f| f["clause"].as_str() == Some("2:reparse")).and_then(|f| {
+            f["detail"].as_str().and_then(|d| d.rsplit_once(" @")).and_then(|(_, p)| p.split_once(':')).and_then(|(l, _)| l.parse::<u32>().ok())
+        });
+        if let Some(err_line) = err_line {
+            if let Ok(Ok(out1)) = kvh::catch(|| format(&src, o.to_fo())) {
+                if let Some(t1) = lex_all(&out1) {
+                    if forced_break_before_non_continuable(&toks, &t1, err_line) {
+                        oshapes.push("forced_break_before_non_continuable");
                     }
                 }
             }
@@ -2475,8 +2583,8 @@ impl Gen {
     /// A line comment INSIDE a bracket-like group (tuple, list, map, parenthesised operand / chain root, call
     /// arguments, index, function parameters, import item list, string interpolation), at every gap: behind the
     /// opener, behind an element, behind a comma, in front of the closer. Since /repo 3ee7e6a (C11-fix-12) a line
-    /// comment forces a line break behind it in every group kind, so clauses 2, 3, 4 and 6 are ENFORCED here (only
-    /// the interpolation template keeps an attribution, `comment_in_interpolation`).
+    /// comment forces a line break behind it in every group kind, so clauses 2, 3, 4 and 6 are ENFORCED here (the
+    /// interpolation / header templates keep the residual attributions of F-C11-10 / F-C11-19).
     fn comment_in_group(&mut self, ind: usize) {
         const T: &[&str] = &[
             "t% = (@1, @2@)\nprint t%",
@@ -2501,6 +2609,16 @@ impl Gen {
             "u% = ((@1, 2@), [@3@])\nprint u%",
             "v% = (1, 2@) + (3,)\nprint v%",
             "print '{(@1@)}'",
+            "print 'x{[1, 2@][0]}'",
+            "if (@true@)\n  print 1",
+            "while (@false@)\n  print 1",
+            "print if (@true@) then (@1@) else (@2@)",
+            "print [1, 2][(@0@)]",
+            "print (@1@), 2",
+            "z% = (@1, 2@)[0]\nprint z%",
+            "print match (@1@)\n  1 then 2\n  else 3",
+            "print (@1@) -> |q| q",
+            "a%, b% = (@1@), 2\nprint a%",
         ];
         let pad = " ".repeat(ind);
         let n = self.fresh("");
@@ -2726,7 +2844,8 @@ const FINDINGS: &[(&str, &str, &[&str])] = &[
     ("F-C11-10", "comment_migrated_behind_closer", &["5:idempotence-only"]),
     ("F-C11-9", "block_expr_operand", &["2:", "3:", "5~"]),
     ("F-C11-9", "line_starts_with_minus", &["2:", "3:", "5~"]),
-    ("F-C11-10", "comment_in_interpolation", &["2:", "3:", "4:", "5~"]),
+    ("F-C11-10", "forced_break_before_non_continuable", &["2:", "3:", "5~"]),
+    ("F-C11-19", "comment_in_block_header", &["2:", "3:", "5~"]),
 ];
 /// F-C11-10 witnesses cured by /repo 3ee7e6a (C11-fix-12: a nested item that ends in a line comment is followed by a
 /// forced line break in every builder group). They are checked on the full option grid with NO attribution for
@@ -2747,7 +2866,6 @@ const CURED_BY_3EE7E6A: &[(&str, &str)] = &[
     ("list_closer", "x = [\n  1,\n  2 # c\n]\nprint x\n"),
     ("list_closer_one_line", "y = [1, 2 # c\n]\nprint y\n"),
     ("map_closer_two_comments", "m = {\n  b: 1 # c1\n} # c2\nprint m\n"),
-    ("index", "print [1, 2][0 # c\n]\n"),
 ];
 
 /// The class finding: clauses 2/3/5 at line_length < 255 that hold for the same program and the
